@@ -35,7 +35,8 @@ Lemma default_base_domain_exists : DefaultBaseDomains <> [] /\ forallb (fun b =>
 Proof. split; [discriminate|vm_compute; reflexivity]. Qed.
 
 (* the store the repository is given by default has an atomic counter and an atomic set-if-absent;
-   on the hybrid store the index and (when present) the removal guard live in the shared tier *)
+   on the hybrid store the index and (when present) the removal guard live in the shared tier, and Incr is one atomic call *)
 Lemma store_primitives : memory_store_has_Incr_and_SetNX = true /\ hybrid_index_is_shared = true /\
-  hybrid_mapping_is_shared_persistent = true /\ implb delete_is_guarded hybrid_removal_guard_is_shared = true.
+  hybrid_mapping_is_shared_persistent = true /\ implb delete_is_guarded hybrid_removal_guard_is_shared = true /\
+  hybrid_incr_is_get_then_set = false.   (* since d88dca0 hybrid.Storage.Incr delegates to its cache tier's atomic IncrBy *)
 Proof. vm_compute. auto. Qed.
